@@ -23,6 +23,7 @@ def run(lines, out, args):
                 itertools.count, bytearray, complex, frozenset, range, memoryview]
     ifs, classes, objs = {}, {}, {}
     regs = []
+    watchers, journal = [], []
     serial = 0
     mod = None
 
@@ -57,6 +58,8 @@ def run(lines, out, args):
                 sys.modules[mod.__name__] = mod
                 ifs, classes, objs = {0: Interface}, {0: object}, {}
                 del regs[:]
+                del watchers[:]
+                del journal[:]
                 gc.collect()
             elif f[0] == "iface":
                 def secret(self_or_arg=None):
@@ -78,6 +81,26 @@ def run(lines, out, args):
                 r = AdapterRegistry()
                 regs.append(r)
                 r.lookup([providedBy(classes[int(f[1])])], Interface)
+            elif f[0] == "watch":
+                # a dependent of the class's specification that pickles it from INSIDE every change notification it receives
+                # (a journaling / persistence layer does): by reference, and back to the identical live object, at that moment too
+                class Watcher:
+                    def __init__(self, cls):
+                        self.cls = cls
+
+                    def changed(self, originally_changed):
+                        x = implementedBy(self.cls)
+                        for proto in (0, 2, pickle.HIGHEST_PROTOCOL):
+                            try:
+                                y = pickle.loads(pickle.dumps(x, proto))
+                            except Exception as e:  # noqa
+                                journal.append("raised-%s" % type(e).__name__)
+                                continue
+                            if y is not x:
+                                journal.append("p%d:not-identical-inside-notification" % proto)
+                wt = Watcher(classes[int(f[1])])
+                watchers.append(wt)
+                implementedBy(classes[int(f[1])]).subscribe(wt)
             elif f[0] == "inst":
                 objs[int(f[1])] = classes[a[0]]()
             elif f[0] == "add":
@@ -164,6 +187,9 @@ def run(lines, out, args):
                 got = "bad"
         except Exception as e:  # noqa
             got = "err %s %s" % (type(e).__name__, str(e)[:70].replace("\n", " "))
+        if journal:
+            got += " WATCH-FAIL " + " ".join(sorted(set(journal)))
+            del journal[:]
         out.write(got + "\n")
         if f[0] in ("dp", "also", "nl", "pk"):
             gc.collect()
